@@ -53,6 +53,9 @@ pub enum Reply {
 pub struct TestSvc {
     #[allow(dead_code)]
     cfg: SvcCfg,
+    /// What the service keeps between requests (rink's context plays this
+    /// part): the block of the last `Hold`, as (address, size).
+    resident: std::sync::Mutex<Option<(usize, usize)>>,
 }
 
 thread_local! {
@@ -87,7 +90,10 @@ impl Service for TestSvc {
         if config.startup_ns > 0 {
             simkit::shim::child::sleep(Duration::from_nanos(config.startup_ns));
         }
-        Ok(TestSvc { cfg: config })
+        Ok(TestSvc {
+            cfg: config,
+            resident: std::sync::Mutex::new(None),
+        })
     }
 
     fn handle(&self, request: Request) -> Reply {
@@ -120,15 +126,21 @@ impl Service for TestSvc {
             }
             Request::Exit(code) => simkit::shim::child::exit(code),
             Request::Hold(k) => {
+                // The block stays resident until the next `Hold` replaces it: a
+                // request may free what was there before it started and hold
+                // something of its own, as a query that rebuilds part of the
+                // context does.
+                let mut resident = self.resident.lock().unwrap();
+                if let Some((old, size)) = resident.take() {
+                    unsafe { alloc.dealloc(old as *mut u8, Layout::from_size_align(size, 8).unwrap()) };
+                }
                 let layout = Layout::from_size_align(k.max(1) as usize, 8).unwrap();
                 let q = unsafe { alloc.alloc(layout) };
                 if q.is_null() {
                     simkit::shim::child::abort();
                 }
-                unsafe {
-                    *q = 1;
-                    alloc.dealloc(q, layout);
-                }
+                unsafe { *q = 1 };
+                *resident = Some((q as usize, layout.size()));
                 Reply::Held(k)
             }
             Request::Large(data) => {
@@ -573,8 +585,16 @@ fn gen_op(rng: &mut Rng, i: usize, knobs: &Knobs, weights: &[u64; 6]) -> Op {
         4 => Op::Exit(*rng.pick(&[0, 1, 3])),
         _ => {
             let cap = knobs.pipe_cap as u64;
-            let n = *rng.pick(&[1, cap.saturating_sub(9).max(1), cap, cap + 1, cap * 2 + 3, cap * 4]);
-            Op::Large(n.min(300_000) as u32, rng.below(256) as u8)
+            let n = if rng.chance(1, 6) {
+                // Frames whose length sits at a power of two (the request frame is
+                // n + 12 bytes, the reply frame a few dozen bytes more): a length
+                // computed, stored or checked in too narrow a way shows only there.
+                let k = *rng.pick(&[16u32, 20]);
+                (1u64 << k) + rng.below(96) - 72
+            } else {
+                *rng.pick(&[1, cap.saturating_sub(9).max(1), cap, cap + 1, cap * 2 + 3, cap * 4])
+            };
+            Op::Large(n.min(2_200_000) as u32, rng.below(256) as u8)
         }
     }
 }
@@ -633,7 +653,7 @@ impl Harness for C18 {
         let timeout_ns = *rng.pick(&TIMEOUTS_NS);
         let mut knobs = Knobs::default_for(timeout_ns);
         knobs.pipe_cap = *rng.pick(&[512usize, 4096, 65536, 65536]);
-        knobs.mem_limit = *rng.pick(&[1000u64, 100_000, 1 << 20, 1 << 20]);
+        knobs.mem_limit = *rng.pick(&[1000u64, 100_000, 1 << 20, 1 << 20, 16 << 20]);
         knobs.policy = match rng.below(8) {
             0 | 1 => Policy::Sticky(8),
             2 => Policy::Sticky(3),
